@@ -346,8 +346,8 @@ def judge(res, pdef):
     disagreed = False
     for i, (cmd, impl, model, orc) in enumerate(zip(res['script'], res['impl'], res['model'], res['oracle'])):
         c = cmd_of(cmd)
-        if c == 'nomodel':
-            nomodel = True
+        if c in ('nomodel', 'fault'):
+            nomodel = True        # injected damage / faults: only the oracles judge from here on
             continue
         is_p = c in pdef['p_cmds']
         orc_applies = c in pdef.get('oracle_cmds', ())
@@ -458,6 +458,11 @@ def known_match(prop, finding, known):
         ok = True
         if 'detail' in m and not re.search(m['detail'], finding.detail):
             ok = False
+        if 'predicate' in m:
+            import props
+            fn = props.KNOWN_PREDICATES.get(m['predicate'])
+            if fn is None or not fn(finding):
+                ok = False
         for pat in m.get('script', []):
             if not re.search(pat, text, re.M):
                 ok = False
